@@ -23,13 +23,8 @@ Role(fs, i) == LET f == fs[i] IN
   [t |-> f.t, n |-> f.n, g |-> f.g, s |-> f.s, k |-> f.k,
    kn |-> IF f.t = "entry" THEN arch.n[f.g][f.s] ELSE 0]
 AtRole(fs, j) == IF j > Len(fs) THEN [NoRole EXCEPT !.t = "end"] ELSE Role(fs, j)
-\* what is handed out as the model's prediction: for a restore the outcome under the configured Impl choices
-\* and under the two pure variants (code as found / repaired), so that the check can tell which one the tree follows
-Short(r) == IF "r" \in DOMAIN r
-              THEN [out |-> r.r.out, keys |-> r.r.keys,
-                    found |-> LET o == OutcomeWith(r.fed, "crash", "none") IN [out |-> o.out, keys |-> o.keys],
-                    fixed |-> LET o == OutcomeWith(r.fed, "skip", "pair") IN [out |-> o.out, keys |-> o.keys]]
-              ELSE r
+\* what is handed out as the model's prediction (the driver does not use it; the check compares)
+Short(r) == IF "r" \in DOMAIN r THEN [out |-> r.r.out, keys |-> r.r.keys] ELSE r
 Rec(act, s, x, y, d, tgt, at, kn, cls) ==
   h' = Append(h, [act |-> act, s |-> s, x |-> x, y |-> y, d |-> d,
                   a |-> [tgt |-> tgt, at |-> at, kn |-> kn, cls |-> cls], res |-> Short(res')])
